@@ -18,6 +18,8 @@ extern int  env_callbacks_pending(void);
 extern void env_aio_expire(nni_aio *aio);
 /* deferred destruction (nni_reap / nni_aio_reap) */
 extern int  env_reap_run(void);
+extern int  env_reap_pending(void);
+extern void *env_reap_take(int i);
 extern int  env_aio_total_completions;
 extern nni_time env_now; /* what nni_clock() returns */
 extern u32      env_random_value;
